@@ -401,9 +401,8 @@ def run(ctx):
     # equality with FIPS 180-4, shared rule instances with C16 / C01
     from . import sha2eq as _sha2eq
     _g3 = []
-    _cases = {("K3", "hashing::sha2::impl256::sse41::digest_block"), ("K4", "hashing::sha2::impl256::avx::digest_block")}
-    ctx.guard("compress-eq", "sha256-simd", lambda: _g3.append(_sha2eq.check_sha256(ctx, {"K3": 1, "K4": 1}, cases=_cases)))
-    ctx.check(_g3 == [3], "floor", "compress-eq", "3 SIMD SHA-256 runs (4 and 4+1 blocks SSE4.1, 8 blocks AVX) equal the FIPS 180-4 compression", "only %s SIMD SHA-256 comparisons ran" % _g3, key="floor:compress-eq")
+    ctx.guard("compress-eq", "sha256", lambda: _g3.append(_sha2eq.check_sha256(ctx, {"K0": 1, "K3": 1, "K4": 1})))
+    ctx.check(_g3 == [7], "floor", "compress-eq", "6 SHA-256 block-function runs (portable 1, 2; SSE4.1 4, 4+1; AVX 8; SSE4.1 under AVX 4) equal the FIPS 180-4 compression", "only %s SHA-256 comparisons ran" % _g3, key="floor:compress-eq")
     if ctx.tier == "thorough":
         for cfg in ("K1", "K2", "K5"):
             Pc = ctx.prog(cfg)
